@@ -834,6 +834,8 @@ class G:
         r = self.r
         if r.random() < 0.2:
             return self.knuth_corner(raw=False)
+        if r.random() < 0.2:
+            return self.knuth_limb(raw=False)
         if r.random() < 0.15:
             # quotient at 2^128: the upper 128 bits of dividend·10^p equal the divisor exactly (or differ by one)
             pw = r.randrange(20, 37)
@@ -901,6 +903,61 @@ class G:
             return f"{self.mode()} {r.choice(['mul', 'cmul'])} vv {sx * x} {s1} {sy * y} {s2}"
         return f"{self.mode()} mulr vv {sx * x} {s1} {sy * y} {s2} {nn}"
 
+    def knuth_limb(self, raw=False):
+        """operands x, p, y whose 256-bit dividend x·10^p, divided by y >= 2^64, makes the FIRST quotient-digit estimate of Knuth's
+        algorithm D exactly one too large, with the deciding comparison `qhat·yn0 > rhat·B + xn1` true only because of the limb xn1:
+        with T = qhat·yn0 - rhat·B (0 < T < B) the dividend's third limb xn1 is below T and its lowest limb xn0 is at or above T — a
+        test that looked at another limb (or at none) would keep the estimate.  Free low bits are chosen so that the dividend is a
+        multiple of 10^p."""
+        r = self.r
+        B = 2 ** 64
+        for _ in range(60):
+            s = r.randrange(1, 6)                               # normalisation shift of the divisor (y < 2^127)
+            p = r.randrange(20, 37)
+            yn1 = r.randrange(2 ** 63, B)
+            yn0 = (r.randrange(2 ** 62, B) >> s) << s
+            y = ((yn1 << 64) | yn0) >> s
+            qmax = min(yn1, (10 ** p << (s - 1)) // yn1) - 2
+            if qmax < 4:
+                continue
+            qhat = r.randrange(max(2, qmax // 1024), qmax)
+            rhat = (qhat * yn0) // B
+            T = qhat * yn0 - rhat * B
+            if not (0 < T < B) or rhat >= yn1:
+                continue
+            hi = qhat * yn1 + rhat
+            M = (10 ** p) << s
+            base = (-(hi << 128)) % M
+            L = None
+            for _ in range(400):
+                cand = base + r.randrange(0, max(1, (2 ** 128 - base) // M)) * M
+                if cand >= 2 ** 128:
+                    continue
+                xn1, xn0 = cand >> 64, cand & (B - 1)
+                if xn1 < T <= xn0:
+                    L = cand
+                    break
+            if L is None:
+                continue
+            d = ((hi << 128) | L) >> s
+            if d % 10 ** p:
+                continue
+            x = d // 10 ** p
+            if x > MAX or y > MAX or x == 0:
+                continue
+            sx, sy = r.choice([(1, 1), (1, 1), (-1, 1), (1, -1), (-1, -1)])
+            if raw:
+                return f"heven kwsh {sx * x} {p} {sy * y}"
+            nn = r.randrange(max(0, p - 18), 19)
+            s2 = r.randrange(max(0, p - nn), 19)
+            s1 = nn + s2 - p
+            if not (0 <= s1 <= 18):
+                continue
+            if nn == 18 and r.random() < 0.5:
+                return f"{self.mode()} {r.choice(['div', 'cdiv'])} vv {sx * x} {s1} {sy * y} {s2}"
+            return f"{self.mode()} divr vv {sx * x} {s1} {sy * y} {s2} {nn}"
+        return self.knuth_corner(raw)
+
     def knuth_corner(self, raw=False):
         """operands x, p, y whose 256-bit dividend x·10^p, divided by y >= 2^64, takes the first quotient-digit estimate of
         Knuth's algorithm D through exactly one correction that lands the running remainder on 2^64 (the loop's exit test
@@ -947,7 +1004,7 @@ class G:
         for _ in range(n):
             k = r.randrange(13)
             if k == 12:
-                yield self.knuth_corner(raw=True) if r.random() < 0.4 else self.wide_boundary()
+                yield (self.knuth_corner(raw=True) if r.random() < 0.5 else self.knuth_limb(raw=True)) if r.random() < 0.5 else self.wide_boundary()
                 continue
             if k < 5:  # a·10^k / m through the doc-hidden helper
                 x = self.coeff(); kk = r.randrange(0, 39); y = abs(self.coeff()) or 1
